@@ -37,6 +37,9 @@ Step ==
                   "LossTimerNotArmedWithDataInFlight")
        \cup Flag((e.quiet /\ e.side = "c" /\ e.st = "hs" /\ ~e.pcav) => (e.tm0 # -1 \/ e.tm6 # -1),
                   "ClientTimerNotArmedBeforeValidation")
+       \* "never wedges because of congestion": the window a built-in controller reports always has
+       \* room for two datagrams - below one, nothing can be sent and nothing is in flight to be acknowledged
+       \cup Flag(~e.wlow, "WindowBelowTwoDatagrams")
   /\ l' = l + 1 /\ UNCHANGED <<budget, ended, deviations, cur>>
 
 \* a panic or a runaway loop inside the library ends the run abnormally
